@@ -47,9 +47,16 @@ def _lib_ops_same_set(d):
 
 def draw_case(data, tier):
     d = data.draw(st.sampled_from([1, 2, 2, 3, 3]), label="d")
-    hi = {1: 6, 2: 5, 3: 4}[d] if data.draw(st.integers(0, 7), label="big_extents") else {1: 40, 2: 11, 3: 6}[d]
-    shape, cls = gen.draw_shape(data, d, 1, hi)
-    k, p = gen.draw_type(data, d, 3 if d == 2 else 2)
+    big = data.draw(st.integers(0, 5), label="big_extents") == 0
+    if big and d > 1:
+        # thin strips / slabs with a two-digit extent: one extent in 10..12, the others in 1..2, in a drawn axis order
+        ext = [data.draw(st.integers(10, 12), label="long_extent")] + [data.draw(st.integers(1, 2), label="short_extent") for _ in range(d - 1)]
+        shape = tuple(data.draw(st.permutations(ext), label="axis_order"))
+        cls = "strip"
+    else:
+        hi = {1: 6, 2: 5, 3: 4}[d] if not big else 40
+        shape, cls = gen.draw_shape(data, d, 1, hi)
+    k, p = gen.draw_type(data, d, (3 if d == 2 else 2) if not (big and d > 1) else 1)
     entry = data.draw(st.sampled_from(["array", "gi", "mi", "mi"]), label="entry")
     torus = gen.draw_torus(data, d)
     case = {"d": d, "shape": list(shape), "k": k, "p": p, "entry": entry, "torus": list(torus)}
